@@ -430,11 +430,15 @@ void do_term(std::ostream &out, world &w, toks &t)
         to.chan.fail_next = true;
         return;
     }
-    if (to.chan.fail_next && (op == "elem" || op == "str"))
+    if (to.chan.fail_next && (op == "elem" || op == "str" || op == "move" || op == "hide" || op == "show"))
     {
         try
         {
-            if (op == "elem") to.term << mk_elem(t); else to.term << mk_string(t);
+            if (op == "elem") to.term << mk_elem(t);
+            else if (op == "str") to.term << mk_string(t);
+            else if (op == "hide") to.term << hide_cursor();
+            else if (op == "show") to.term << show_cursor();
+            else { long a = t.num(), b = t.num(); to.term << move_cursor({coordinate_type(a), coordinate_type(b)}); }
             out << "NOEXC\n";
         }
         catch (std::runtime_error const &) { out << "EXC\n"; }
@@ -657,6 +661,16 @@ void do_canvas(std::ostream &out, world &w, toks &t)
             });
         if (ob.str() != om.str() || oi.str() != om.str())
             out << "KRX a visitor that returns a value does not see the whole region\n";
+        // the application's own function object, passed as an lvalue and looked at afterwards
+        struct counting_visitor
+        {
+            long cells = 0;
+            void operator()(element const &, coordinate_type, coordinate_type) { ++cells; }
+        } counter;
+        for_each_in_region(
+            c, {{coordinate_type(x), coordinate_type(y)}, {coordinate_type(a), coordinate_type(b)}}, counter);
+        if (counter.cells != a * b)
+            out << "KRX a function object passed to for_each_in_region saw " << counter.cells << " of " << (a * b) << " cells\n";
     }
     else out << "ERR unknown canvas op\n";
 }
@@ -916,6 +930,14 @@ void do_string(std::ostream &out, world &w, toks &t)
         auto &s = w.strings.at(id);
         tstr const src = w.strings.at(o);     // a copy: the source may be the target itself
         s.insert(s.begin() + pos, src.begin(), src.end());
+    }
+    else if (op == "insertstream")
+    {
+        // text read from a stream, inserted through single-pass input iterators
+        long pos = t.num();
+        std::istringstream in(rd_bytes());
+        auto &s = w.strings.at(id);
+        s.insert(s.begin() + pos, std::istreambuf_iterator<char>(in), std::istreambuf_iterator<char>());
     }
     else if (op == "erase") { w.strings.at(id).erase(); }
     else if (op == "erasefrom") { long pos = t.num(); auto &s = w.strings.at(id); s.erase(s.begin() + pos); }
